@@ -21,3 +21,10 @@ Definition run_case (c : coll) (mx : N) (h : list op) : list (list obs) * list b
   let b := build c in
   let '(st, outs, bares) := run b mx pool45 init h in
   (outs, bares, st_bits st).
+
+(** two stacks on two threads (Model2): per-operation observations of the acting thread's own stack,
+    `bare` flags, and the final bitmaps of both threads *)
+From TV Require Import Stack.Model2.
+Definition run2_case (ca cb : coll) (mx : N) (h : list (tid * op)) : list (list obs) * list bool * (N * N) :=
+  let '(s, outs, bares) := run2 (build ca) (build cb) mx pool45 init2 h in
+  (outs, bares, (st_bits (s_a s), st_bits (s_b s))).
